@@ -301,8 +301,11 @@ var expAccessors = []func(e *experiment.Experiment){
 	},
 }
 
-func genC19Exp() *rapid.Generator[C19Exp] {
-	eg := genExpSpec()
+func genC19Exp() *rapid.Generator[C19Exp] { return genC19ExpM(false) }
+
+// genC19ExpM: modular = records whose champions may carry modular genomes (C19 only: such a record can not be saved, see C15)
+func genC19ExpM(modular bool) *rapid.Generator[C19Exp] {
+	eg := genExpSpecM(modular)
 	return rapid.Custom(func(t *rapid.T) C19Exp {
 		c := C19Exp{Exp: eg.Draw(t, "experiment")}
 		n := rapid.IntRange(0, 4).Draw(t, "warm-up calls")
@@ -381,7 +384,10 @@ func CheckC19Exp(c C19Exp, rec *Rec) (err error) {
 		e = used
 		rec.Class("trial values that held another record before")
 	}
-	if c.ViaRead {
+	if hasModularChampion(c.Exp) {
+		rec.Class("record with a modular champion (held in memory only)")
+	}
+	if c.ViaRead && !hasModularChampion(c.Exp) {
 		var buf bytes.Buffer
 		if werr := e.Write(&buf); werr != nil {
 			rec.Class("record can not be written (left to C15)")
@@ -761,7 +767,7 @@ func checkTrialAggregates(tr *experiment.Trial, t TrialSpec, rec *Rec) error {
 }
 
 func TestC19Exp(t *testing.T) {
-	runProp(t, "C19", "aggregates", 600, 12000, genC19Exp(), CheckC19Exp)
+	runProp(t, "C19", "aggregates", 600, 12000, genC19ExpM(true), CheckC19Exp)
 }
 
 func init() {
